@@ -81,8 +81,8 @@ class Ed:
         return [self.txt[i] for i in self.ln]
 
     # ---------------------------------------------------------------- low level edit (mirrors lbuf_replace's mark rules)
-    def edit(self, new_lines, beg, end):
-        """replace [beg,end) by new_lines (None = pure deletion)"""
+    def edit(self, new_lines, beg, end, fresh=False):
+        """replace [beg,end) by new_lines (None = pure deletion); fresh: the new lines are new lines (:c), not changed old ones (:s, filters)"""
         n = len(self.ln)
         beg = min(beg, n)
         end = min(end, n)
@@ -93,7 +93,7 @@ class Ed:
         # ln_glob[] for the first min(n_del, n_ins) slots, so a line changed by :s is the same line for :g
         ins = []
         for k, t in enumerate([] if new_lines is None else new_lines):
-            if k < ndel:
+            if k < ndel and not fresh:
                 lid = self.ln[beg + k]
                 if len(t) > MAXLINE:
                     raise TooBig()
@@ -230,7 +230,7 @@ class Ed:
                 beg += 1
             if k != "c":
                 end = beg
-            self.edit(list(blk), beg, end)
+            self.edit(list(blk), beg, end, fresh=(k == "c"))      # (lines put in by :c are new lines for a running :g - F33, fixed 1ea49ad)
             n2 = len(self.ln)
             self.xrow = min(n2 - 1, end + n2 - n - 1)
             return 0
